@@ -4,9 +4,9 @@
 (* with go/parser) must be the translation of the principal type, for      *)
 (* every subset of redundant annotations; all versions of a function must  *)
 (* emit the same code.  One line per (function, annotation subset):        *)
-(*   [fn |-> [eqs, params, res], status, ntparams, gparams, gres, samecode] *)
+(*   [fn |-> [ast, ...], status, ntparams, gparams, gres, samecode]        *)
 (***************************************************************************)
-EXTENDS FoInfer, Json
+EXTENDS FoInferGen, Json
 CONSTANTS TraceFile
 Trace == ndJsonDeserialize(TraceFile)
 VARIABLES l, bad
@@ -14,7 +14,7 @@ Init == l = 1 /\ bad = <<>> /\ work = {} /\ sub = NoSubst /\ failed = FALSE
 TStep ==
   /\ l <= Len(Trace)
   /\ LET t == Trace[l]
-         p == Principal(t.fn)
+         p == PrincipalOfAst(t.fn.ast)                 \* constraints by the typing rules of FoInferGen
          ok == /\ t.status = "ok"
                /\ p.ok
                /\ t.ntparams = p.ntparams          \* type parameters T0.. exactly for the undetermined types
